@@ -205,6 +205,75 @@ func (p *Program) CountYields() int {
 	return c
 }
 
+// Where renders the syntactic position of node n inside the body as the chain of enclosing constructs,
+// outermost first, e.g. "try.finally/for-of/call/yield" (plain statement and assignment wrappers are left out).
+func (p *Program) Where(n *N) string {
+	var path []string
+	var find func(l []*N, slot string) bool
+	name := func(x *N, slot string) string {
+		switch x.K {
+		case Expr, Asg, Blk, Key:
+			return ""
+		case Try:
+			return "try" + slot
+		case YStar:
+			o := x.X[0]
+			switch o.K {
+			case GInst:
+				return fmt.Sprintf("yield*inner%d", o.I)
+			case Iter:
+				return fmt.Sprintf("yield*it(%d)", o.I)
+			}
+			return "yield*" + o.K
+		case Bin, Logic:
+			return x.S
+		case Call:
+			return x.S + "()"
+		}
+		return x.K
+	}
+	find = func(l []*N, slot string) bool {
+		for _, x := range l {
+			if x == nil {
+				continue
+			}
+			path = append(path, name(x, ""))
+			if x == n {
+				return true
+			}
+			if x.K == Try {
+				path = path[:len(path)-1]
+				for _, b := range []struct {
+					l []*N
+					s string
+				}{{x.A, ".block"}, {x.B, ".catch"}, {x.C, ".finally"}} {
+					path = append(path, "try"+b.s)
+					if find(b.l, "") {
+						return true
+					}
+					path = path[:len(path)-1]
+				}
+				continue
+			}
+			if find(x.X, "") || find(x.A, "") || find(x.B, "") || find(x.C, "") {
+				return true
+			}
+			path = path[:len(path)-1]
+		}
+		return false
+	}
+	if !find(p.Body, "") {
+		return "?"
+	}
+	var parts []string
+	for _, s := range path {
+		if s != "" {
+			parts = append(parts, s)
+		}
+	}
+	return strings.Join(parts, "/")
+}
+
 // ---- the library of inner generators (interpreted by the model from these very ASTs) ----
 
 // Inner returns the body of library generator function inner<i>() (i = 1..NInner).
